@@ -74,6 +74,8 @@ where
                     v.push(pop_stack_wrap(ipt, out, err, &mut state, cur_stack)?);
                 }
 
+                v.reverse();
+
                 for mut x in v {
                     x.minus();
                     n += &x;
@@ -92,6 +94,8 @@ where
                     }
                     v.push(pop_stack_wrap(ipt, out, err, &mut state, cur_stack)?);
                 }
+
+                v.reverse();
 
                 for mut x in v {
                     x.flip();
